@@ -34,7 +34,15 @@ type Tier struct {
 	Watch   int // per-run wall-clock watchdog (s)
 }
 
+// Part is an additional (package, scenario) pair of a property hosted in another test binary.
+type Part struct {
+	Pkg      string
+	Scenario string
+	Share    float64 // fraction of the tier's runs
+}
+
 type PropSpec struct {
+	More        []Part
 	ID          string
 	Pkg         string // package (relative to /repo) whose test binary hosts the scenario
 	Scenario    string
@@ -154,7 +162,9 @@ func findProp(id string) *PropSpec {
 }
 
 // build instruments the tree and builds the test binary for spec; returns binary path and report.
-func build(spec *PropSpec, dir string) (string, map[string]any) {
+func build(spec *PropSpec, dir string) (string, map[string]any) { return buildPkg(spec, spec.Pkg, dir) }
+
+func buildPkg(spec *PropSpec, pkg string, dir string) (string, map[string]any) {
 	os.MkdirAll(dir, 0o755)
 	cfgName := spec.Rewrite
 	if cfgName == "" {
@@ -193,6 +203,35 @@ func build(spec *PropSpec, dir string) (string, map[string]any) {
 		extra[rel] = p
 		return nil
 	})
+	// the package's own test files are not part of the check: replace each by an empty file of the same package
+	// (they would otherwise have to compile against the instrumented types)
+	if own, _ := filepath.Glob(filepath.Join(repoDir, pkg, "*_test.go")); len(own) > 0 {
+		stubDir := filepath.Join(dir, "stubs")
+		os.MkdirAll(stubDir, 0o755)
+		for _, f := range own {
+			src, err := os.ReadFile(f)
+			if err != nil {
+				continue
+			}
+			pkgLine := ""
+			for _, l := range strings.Split(string(src), "\n") {
+				if strings.HasPrefix(l, "package ") {
+					pkgLine = strings.TrimSpace(l)
+					if i := strings.Index(pkgLine, "//"); i > 0 {
+						pkgLine = strings.TrimSpace(pkgLine[:i])
+					}
+					break
+				}
+			}
+			if pkgLine == "" {
+				continue
+			}
+			stub := filepath.Join(stubDir, filepath.Base(f))
+			os.WriteFile(stub, []byte(pkgLine+"\n"), 0o644)
+			rel, _ := filepath.Rel(repoDir, f)
+			extra[rel] = stub
+		}
+	}
 	cfg["extra_files"] = extra
 	cb, _ := json.Marshal(cfg)
 	cfgPath := filepath.Join(dir, "rewrite.json")
@@ -223,7 +262,7 @@ func build(spec *PropSpec, dir string) (string, map[string]any) {
 
 	bin := filepath.Join(dir, "test.bin")
 	os.Remove(bin)
-	cmd := exec.Command("go", "test", "-c", "-vet=off", "-modfile="+filepath.Join(dir, "go.mod"), "-overlay="+filepath.Join(dir, "overlay.json"), "-o", bin, spec.Pkg)
+	cmd := exec.Command("go", "test", "-c", "-vet=off", "-modfile="+filepath.Join(dir, "go.mod"), "-overlay="+filepath.Join(dir, "overlay.json"), "-o", bin, pkg)
 	cmd.Dir = repoDir
 	cmd.Env = goEnv()
 	out, err = cmd.CombinedOutput()
@@ -255,13 +294,13 @@ type workerResult struct {
 	out     string
 }
 
-func runWorker(bin string, spec *PropSpec, tier string, t Tier, seed uint64, from, to int, dir string, idx int, knownPath string) workerResult {
+func runWorker(bin string, spec *PropSpec, part Part, tier string, t Tier, seed uint64, from, to int, dir string, idx int, knownPath string) workerResult {
 	outPath := filepath.Join(dir, fmt.Sprintf("sum-%d.json", idx))
 	os.Remove(outPath)
 	cmd := exec.Command(bin, "-test.run", "^TestVerif$", "-test.timeout", "0", "-test.count", "1")
-	cmd.Dir = filepath.Join(repoDir, spec.Pkg)
+	cmd.Dir = filepath.Join(repoDir, part.Pkg)
 	env := append(os.Environ(),
-		"VERIF_MODE=search", "VERIF_SCENARIO="+spec.Scenario, "VERIF_PROPERTY="+spec.ID, "VERIF_TIER="+tier,
+		"VERIF_MODE=search", "VERIF_SCENARIO="+part.Scenario, "VERIF_PROPERTY="+spec.ID, "VERIF_TIER="+tier,
 		"VERIF_SEED="+strconv.FormatUint(seed, 10), "VERIF_FROM="+strconv.Itoa(from), "VERIF_TO="+strconv.Itoa(to),
 		"VERIF_OUT="+outPath, "VERIF_REPLAY_DIR="+filepath.Join(verifDir, "replays"), "VERIF_WALL_S="+strconv.Itoa(t.WallS),
 		"VERIF_SHRINK_S="+strconv.Itoa(t.ShrinkS), "VERIF_WATCHDOG_S="+strconv.Itoa(t.Watch), "VERIF_KNOWN="+knownPath,
@@ -306,10 +345,10 @@ func runWorker(bin string, spec *PropSpec, tier string, t Tier, seed uint64, fro
 	return res
 }
 
-func replayOnce(bin string, spec *PropSpec, file string, dir string) (int, string) {
+func replayOnce(bin string, spec *PropSpec, part Part, file string, dir string) (int, string) {
 	cmd := exec.Command(bin, "-test.run", "^TestVerif$", "-test.timeout", "0", "-test.count", "1")
-	cmd.Dir = filepath.Join(repoDir, spec.Pkg)
-	env := append(os.Environ(), "VERIF_MODE=replay", "VERIF_SCENARIO="+spec.Scenario, "VERIF_REPLAY="+file,
+	cmd.Dir = filepath.Join(repoDir, part.Pkg)
+	env := append(os.Environ(), "VERIF_MODE=replay", "VERIF_SCENARIO="+part.Scenario, "VERIF_REPLAY="+file,
 		"VERIF_SCRATCH="+filepath.Join(dir, "scratch"), "GOMAXPROCS=2", "VERIF_DIR="+verifDir)
 	for k, v := range spec.Env {
 		env = append(env, k+"="+v)
@@ -369,7 +408,24 @@ func runCheck(spec *PropSpec, tier string) int {
 			os.Remove(f)
 		}
 	}
-	bin, report := build(spec, dir)
+	parts := []Part{{Pkg: spec.Pkg, Scenario: spec.Scenario, Share: 1}}
+	for _, m := range spec.More {
+		parts[0].Share -= m.Share
+		parts = append(parts, m)
+	}
+	bins := make([]string, len(parts))
+	var report map[string]any
+	for i, p := range parts {
+		pdir := dir
+		if i > 0 {
+			pdir = filepath.Join(dir, fmt.Sprintf("part%d", i))
+		}
+		var rep map[string]any
+		bins[i], rep = buildPkg(spec, p.Pkg, pdir)
+		if i == 0 {
+			report = rep
+		}
+	}
 	buildS := time.Since(t0).Seconds()
 
 	known := loadKnown()
@@ -384,30 +440,57 @@ func runCheck(spec *PropSpec, tier string) int {
 	os.WriteFile(knownPath, kb, 0o644)
 
 	nw := numWorkers()
-	if nw > t.Runs {
-		nw = t.Runs
+	type job struct {
+		part     int
+		from, to int
 	}
-	if nw < 1 {
-		nw = 1
+	var jobs []job
+	start := 0
+	for i, p := range parts {
+		n := int(float64(t.Runs)*p.Share + 0.5)
+		if n < 1 {
+			n = 1
+		}
+		chunks := int(float64(nw)*p.Share + 0.5)
+		if chunks < 1 {
+			chunks = 1
+		}
+		if chunks > n {
+			chunks = n
+		}
+		per := (n + chunks - 1) / chunks
+		for c := 0; c < chunks; c++ {
+			from, to := start+c*per, start+(c+1)*per
+			if to > start+n {
+				to = start + n
+			}
+			if from < to {
+				jobs = append(jobs, job{i, from, to})
+			}
+		}
+		start += n
 	}
-	per := (t.Runs + nw - 1) / nw
-	results := make([]workerResult, nw)
+	results := make([]workerResult, len(jobs))
+	sem := make(chan struct{}, nw)
 	var wg sync.WaitGroup
-	for w := 0; w < nw; w++ {
-		from, to := w*per, (w+1)*per
-		if to > t.Runs {
-			to = t.Runs
-		}
-		if from >= to {
-			continue
-		}
+	for w, j := range jobs {
 		wg.Add(1)
-		go func(w, from, to int) {
+		go func(w int, j job) {
 			defer wg.Done()
-			results[w] = runWorker(bin, spec, tier, t, seed, from, to, dir, w, knownPath)
-		}(w, from, to)
+			sem <- struct{}{}
+			defer func() { <-sem }()
+			results[w] = runWorker(bins[j.part], spec, parts[j.part], tier, t, seed, j.from, j.to, dir, w, knownPath)
+		}(w, j)
 	}
 	wg.Wait()
+	partOf := func(scenario string) int {
+		for i, p := range parts {
+			if p.Scenario == scenario {
+				return i
+			}
+		}
+		return 0
+	}
 
 	agg := Summary{Inconclusive: map[string]int{}, Faults: map[string]int{}, Probes: map[string]int{}, Strategies: map[string]int{}, KnownHits: map[string]int{}, KnobOnly: map[string]int{}}
 	distinct := map[uint64]bool{}
@@ -473,7 +556,8 @@ func runCheck(spec *PropSpec, tier string) int {
 			continue
 		}
 		seenSig[key] = true
-		code, out := replayOnce(bin, spec, v.Replay, dir)
+		pi := partOf(replayScenario(v.Replay))
+		code, out := replayOnce(bins[pi], spec, parts[pi], v.Replay, dir)
 		switch code {
 		case 1:
 			confirmed++
@@ -563,6 +647,7 @@ func runCheck(spec *PropSpec, tier string) int {
 			"build_s":                      buildS,
 			"search_s":                     searchS,
 			"workers":                      nw,
+			"parts":                        parts,
 			"determinism_fold":             agg.DetHash,
 		},
 	}
@@ -593,9 +678,18 @@ func replayCmd(file string) int {
 	}
 	dir := filepath.Join(verifDir, ".build", spec.ID)
 	os.MkdirAll(filepath.Join(dir, "scratch"), 0o755)
-	bin, _ := build(spec, dir)
 	abs, _ := filepath.Abs(file)
-	code, out := replayOnce(bin, spec, abs, dir)
+	part := Part{Pkg: spec.Pkg, Scenario: spec.Scenario}
+	pdir := dir
+	sc := replayScenario(abs)
+	for i, m := range spec.More {
+		if m.Scenario == sc {
+			part = m
+			pdir = filepath.Join(dir, fmt.Sprintf("part%d", i+1))
+		}
+	}
+	bin, _ := buildPkg(spec, part.Pkg, pdir)
+	code, out := replayOnce(bin, spec, part, abs, dir)
 	fmt.Print(out)
 	if code == 1 {
 		fmt.Printf("VIOLATION property=%s replay=%s\n", spec.ID, abs)
@@ -666,6 +760,18 @@ func selftestDeterminism(id string) int {
 	}
 	fmt.Println("deterministic")
 	return 0
+}
+
+func replayScenario(file string) string {
+	b, err := os.ReadFile(file)
+	if err != nil {
+		return ""
+	}
+	var rf struct {
+		Scenario string `json:"scenario"`
+	}
+	json.Unmarshal(b, &rf)
+	return rf.Scenario
 }
 
 func tail(s string, n int) string {
